@@ -3,7 +3,7 @@ T1 validation: execute every generated Lean definition (through Drv/Leaf.lean) a
 method on the same seeded states/inputs and compare.  The real method is called unbound on a stand-in
 `self` whose wires are real py4hw Wires, so `.get()/.put()/.prepare()/.getWidth()` are the repo's own.
 """
-import os, sys, json, importlib
+import os, sys, json, importlib, contextlib, io
 from common import *
 
 
@@ -260,19 +260,25 @@ def validate_generated(res, rng, n_per_class, classes=None, stream='T1'):
         v = fr.randint(-(1 << (w + 1)), 1 << (w + 1))
         nw = w + fr.randint(0, 10)
         reqs += [f'fn signed_to_c2 | {v},{w}', f'fn c2_to_signed | {v},{w}', f'fn signExtend | {v},{w},{nw}',
-                 f'fn Wire.put | {w},{v}', f'fn Wire.prepare | {w},{v}', f'put | {w},{v}',
+                 f'fn Wire.put | {w},{v}', f'fn Wire.prepare | {w},0,{v}', f'fn Wire.prepare | {w},1,{v}', f'put | {w},{v}',
                  f'fn BidirWire.put | {w},{v}', f'fn BidirWire.prepare | {w},{v}']
         wr = base.Wire(sysobj, f'fw{j}', w)
         wr.put(v)
         pv = wr.value
         wr.prepare(v)
+        first = wr.next
+        with contextlib.redirect_stdout(io.StringIO()):
+            wr.prepare(v + 1)            # second prepare in the same cycle: the "already prepared" branch
+        second_ok = (wr.next == ((v + 1) & ((1 << w) - 1)))
+        wr.prepare(v) if False else None
         base.Wire.prepared = []
         bw = base.BidirWire(sysobj, f'bw{j}', w)
         bw.put(v)
         bv = bw.value
         bw.prepare(v)
         base.Wire.prepared = []
-        exp += [IntegerHelper.signed_to_c2(v, w), IntegerHelper.c2_to_signed(v, w), signExtend(v, w, nw), pv, wr.next,
+        exp += [IntegerHelper.signed_to_c2(v, w), IntegerHelper.c2_to_signed(v, w), signExtend(v, w, nw), pv, first,
+                (first if second_ok else 'second prepare in a cycle stores ' + str(wr.next) + ' for ' + str(v + 1)),
                 pv, bv, bw.next]
     outs = run_driver('Drv/Leaf.lean', reqs)
     for rq, a, e in zip(reqs, outs, exp):
